@@ -8,7 +8,7 @@ def _fmm_objects():
     return objs
 
 def _tree_objects():
-    return [("h_tree_main.cpp", [], "main")] + [("h_tree_tu.cpp", ["VH_FL=%d" % f], "f%d" % f) for f in range(1, 11)]
+    return [("h_tree_main.cpp", [], "main")] + [("h_tree_tu.cpp", ["VH_FL=%d" % f], "f%d" % f) for f in range(1, 12)]
 
 def _sched_objects(tsan):
     objs = [("h_sched_main.cpp", [], "main"), ("rt/sched.cpp", [], "sched")]
@@ -62,7 +62,7 @@ BINARIES = {
     "h_omp": {"flavour": "asan", "objects": _omp_objects(), "cflags": ["-fopenmp"], "ldflags": ["-fopenmp", "-lpthread"], "about": "OpenMP executors on the real libgomp runtime, 1..16 threads: P-rec, events == model, kernel-instance ownership, bit-identical to sequential, ASan+UBSan (no O-dag, no TSan); also cross-checks the shim's reading of the GOMP ABI"},
     "h_sched_tsan": {"flavour": "tsan", "objects": _sched_objects(1), "cflags": ["-fopenmp"], "ldflags": ["-lpthread"], "about": "same engine under ThreadSanitizer with wave policies (mutually unordered tasks released together)"},
     "h_fmm": {"flavour": "asan", "objects": _fmm_objects(), "about": "sequential executors + probe kernels on single trees, Dim 1..4, Morton and periodic Morton"},
-    "h_tree": {"flavour": "asan", "objects": _tree_objects(), "cflags": ["-fopenmp"], "ldflags": ["-fopenmp"], "about": "(compiled with -fopenmp and linked with the real libgomp, so that OpenMP-conditional construction paths run as in a user's OpenMP build) tree construction / structure / lookup / export / rebuild over 10 template flavours (Dim 1..4, float/double, data type != real type, 0..4 rhs, periodic ordering, target/source trees)"},
+    "h_tree": {"flavour": "asan", "objects": _tree_objects(), "cflags": ["-fopenmp"], "ldflags": ["-fopenmp"], "about": "(compiled with -fopenmp and linked with the real libgomp, so that OpenMP-conditional construction paths run as in a user's OpenMP build) tree construction / structure / lookup / export / rebuild over 11 template flavours (Dim 1..4, float/double, data type != real type, 0..4 rhs, periodic ordering, Hilbert ordering, target/source trees)"},
 }
 
 EXPL = "exploration"
@@ -235,7 +235,7 @@ CHECKS = {
         "claim": "For every explored layout (1..4 sub-blocks of scalar / vector / multi-row / multi-column kinds, element sizes 1..4096 bytes, counts 0..10^4 incl. rows ending on / one past a 64-byte boundary) all accessors stayed inside the buffer and below the trailer, sub-blocks never overlapped, a byte copy viewed through the raw-memory constructor returned identical values (also after shrinking reuse, move construction/assignment, regrow); for every explored tree, byte copies of all groups were equivalent views and the full operator sequence run on the views left byte-identical buffers.",
         "note": "Trusted: address arithmetic of the harness. Over-aligned element types (alignas > 16) are not exercised; mixed-alignment layouts use alignments that are multiples of 8 (the library concatenates sub-blocks without padding the start of a block to its own alignment, so smaller ones would misalign long/double by construction of the layout, which is the caller's choice).",
         "jobs": [{"bin": "h_mem", "mode": "c14"}],
-        "rule": "cases = 8 layout families (three of them with sub-blocks of different alignment template arguments: 8/8/64/8, 16/128/8, 64/8/32/256) x random counts (0, 1, k*64/size, k*64/size+1, small, up to 2000/10^4) each followed by a random smaller count set; and random trees (Dim 1..3, periodic Dim 3) whose every cell/particle group is byte-copied, viewed, compared accessor by accessor, then executed through TbfAlgorithm on the views and compared byte for byte with the originals. non-trivial = any layout case / tree with >= 2 groups; distinct = case id or configuration signature.",
+        "rule": "cases = 8 layout families (three of them with sub-blocks of different alignment template arguments: 8/8/64/8, 16/128/8, 64/8/32/256) x random counts (0, 1, k*64/size, k*64/size+1, small, up to 2000/10^4) each followed by a random smaller count set; and random trees (Dim 1..3, periodic Dim 3) whose every cell/particle group is byte-copied, viewed (array / pointer-size constructors, moved views, partial views, and deferred views built with inInitFromMemory=false before the bytes arrive and finished with initMemoryBlockHeader()), compared accessor by accessor, then executed through TbfAlgorithm on the views and compared byte for byte with the originals. non-trivial = any layout case / tree with >= 2 groups; distinct = case id or configuration signature.",
         "require_events": ["elements-checked", "layouts-exercised", "groups-viewed", "bytes-compared", "viewer-bounds-hook-checks", "leaf-accessor-sets-checked", "row-kernel-runs"],
         "assumptions": [],
     },
@@ -245,8 +245,8 @@ CHECKS = {
         "claim": "On every explored pair of particle clouds (counts 0..500 incl. 0, 1 and +-1 around multiples of 4..64, separations over 12 orders of magnitude, either sign and neutral particles (charge exactly 0, which still receive a potential), common charge magnitudes 1e-2..1e2, float and double, non-zero initial results) the routines added to every target sum q_j/r and q_i q_j (x_j-x_i)/r^3 within (n+12) eps times the sum of absolute terms, excluded the self term, left sources untouched in the one-sided routine, produced bit-exactly opposite forces for a single pair and balanced total force in general.",
         "note": "Scalar path only: Inastemp is not present in this image, the vectorised path is out of reach.",
         "jobs": [{"bin": "h_num", "mode": "c20", "env": {"VH_BOUNDS": "/verif/bounds.json"}}],
-        "rule": "case = random source and target clouds; remote, mutual and inner routines each compared component by component with the long double reference. Every third case also calls the mutual routine on a cloud and its own shifted image with one set of result arrays for both sides (what the kernels do for a leaf that is its own periodic neighbour): action and reaction of every ordered pair must both arrive. non-trivial = both clouds non-empty; distinct = (type, counts, scale, sign, initial-rhs flag, neutral-particle pattern, charge scale).",
-        "require_events": ["p2p-values-checked", "p2p-opposite-pairs-checked", "p2p-cases-with-neutral-particles", "p2p-own-image-cases"],
+        "rule": "case = random source and target clouds; remote, mutual and inner routines each compared component by component with the long double reference. Every fourth case passes the owning std::array<std::vector<T>,4> containers themselves instead of arrays of raw pointers (the routines take any container with operator[] per row). Every third case also calls the mutual routine on a cloud and its own shifted image with one set of result arrays for both sides (what the kernels do for a leaf that is its own periodic neighbour): action and reaction of every ordered pair must both arrive. non-trivial = both clouds non-empty; distinct = (type, counts, scale, sign, initial-rhs flag, neutral-particle pattern, charge scale).",
+        "require_events": ["p2p-values-checked", "p2p-opposite-pairs-checked", "p2p-cases-with-neutral-particles", "p2p-own-image-cases", "p2p-owning-container-calls"],
         "assumptions": ["tolerance coefficient p2p.coef in bounds.json (2.0) multiplies the first-order worst-case summation bound"],
     },
     "C04": {
